@@ -872,7 +872,8 @@ def closure_sites(body):
     out = []
     for bi in sorted(body.live_blocks()):
         for si, st in enumerate(body.blocks[bi]["stmts"]):
-            if st["k"] == "assign" and st["rv"]["k"] == "aggregate" and st["rv"].get("agg") == "closure":
+            if st["k"] == "assign" and st["rv"]["k"] == "aggregate" and st["rv"].get("agg") == "closure" \
+                    and not st["rv"].get("spliced"):
                 out.append((bi, si, st["rv"]["closure"], st["rv"]["ops"]))
     return out
 
